@@ -42,7 +42,7 @@ def fvn_kernel():
                                          source_text=read_source(SRC_FVN), consts=table)
     k.origin = f"{SRC_FVN}: find_valid_neighbors"
     k.fn = fn
-    k.numpy_names = numpy_names
+    k.numpy_names, k.consts, k.functions = numpy_names, table, {}
     return k
 
 
@@ -74,6 +74,7 @@ def pixel_kernels(fvn):
                                               consts=table, callees=callees)
         k.origin = f"{SRC}: {cls}.{meth}"
         k.fn = fn
+        k.numpy_names, k.consts, k.functions = numpy_names, table, {c.py_name: fvn.fn for c in callees}
         out[lean] = k
     return out
 
@@ -94,6 +95,7 @@ def nodata_kernel(fvn):
                                           consts=table, callees=[pyloops_ext.Callee("find_valid_neighbors", fvn)])
     k.origin = f"{SRC_FVN}: interpolate_nodata_sgm"
     k.fn = fn
+    k.numpy_names, k.consts, k.functions = numpy_names, table, {"find_valid_neighbors": fvn.fn}
     return k
 
 
